@@ -131,6 +131,44 @@ cell (int pi, int ci, int nrb, int size, struct res *r)
     }
 }
 
+/* length of the part of a generated setting that precedes the salt (tag and cost field), from crypt(5) */
+static size_t
+header_len (const char *s)
+{
+  size_t n = strlen (s);
+  if (!strncmp (s, "$5$", 3) || !strncmp (s, "$6$", 3))
+    {
+      if (!strncmp (s + 3, "rounds=", 7))
+        {
+          const char *d = strchr (s + 10, '$');
+          return d ? (size_t) (d - s) + 1 : n + 1;
+        }
+      return 3;
+    }
+  if (!strncmp (s, "$1$", 3) || !strncmp (s, "$3$", 3))
+    return 3;
+  if (!strncmp (s, "$7$", 3))
+    return 14;
+  if (!strncmp (s, "$2", 2))
+    return 7;
+  if (s[0] == '_')
+    return 5;
+  if (s[0] == '$')
+    {
+      /* $y$params$  $gy$params$  $sha1$N$  $md5$ / $md5,rounds=N$ */
+      int want = !strncmp (s, "$md5", 4) ? 2 : 3;
+      const char *q = s;
+      for (int i = 0; i < want; i++)
+        {
+          q = strchr (q + (i ? 1 : 0), '$');
+          if (!q)
+            return n + 1;
+        }
+      return (size_t) (q - s) + 1;
+    }
+  return 0;
+}
+
 /* one (prefix,count,nrbytes) column: all sizes, plus the relational oracles */
 static void
 column (int pi, int ci, int nrb, int only_size)
@@ -176,6 +214,25 @@ column (int pi, int ci, int nrb, int only_size)
                 {
                   snprintf (sig, sizeof sig, "not-prefix-of-full/prefix=%s", pname (pi));
                   vh_viol (sig, "%s,\"result\":%s,\"full\":%s}", cj, vh_jstr (r->s), vh_jstr (full.s));
+                }
+              /* a shorter result may only have a shorter salt: tag and cost field complete, at least one salt character */
+              if (strcmp (r->s, full.s) && l <= header_len (full.s) && strncmp (full.s, "$3$", 3))
+                {
+                  snprintf (sig, sizeof sig, "truncated-before-the-salt/prefix=%s", pname (pi));
+                  vh_viol (sig, "%s,\"result\":%s,\"full\":%s}", cj, vh_jstr (r->s), vh_jstr (full.s));
+                }
+              else if (strcmp (r->s, full.s) && counts[ci] <= 10000 && (!strncmp (r->s, "$1$", 3) || !strncmp (r->s, "$5$", 3) || !strncmp (r->s, "$6$", 3)))
+                {
+                  /* within the compute budget: the shorter setting must be accepted by crypt and kept as written */
+                  static struct crypt_data cd;
+                  char *h = crypt_rn ("pw", r->s, &cd, sizeof cd);
+                  vh_stat ("short_results_hashed", 1);
+                  size_t keep = l && r->s[l - 1] == '$' ? l - 1 : l;
+                  if (!h || strncmp (h, r->s, keep))
+                    {
+                      snprintf (sig, sizeof sig, "short-result-not-accepted-by-crypt/prefix=%s", pname (pi));
+                      vh_viol (sig, "%s,\"result\":%s,\"crypt\":%s}", cj, vh_jstr (r->s), vh_jstr (h));
+                    }
                 }
               if (size >= CRYPT_GENSALT_OUTPUT_SIZE && strcmp (r->s, full.s))
                 {
